@@ -12,11 +12,12 @@ namespace CV.GenReg
 open CV CV.GenFlat
 
 /-- the source-visible part of a machine state -/
-def srcOf (s : Cpu) : SrcSt := { mem := s.mem, x := s.x, y := s.y }
+def srcOf (s : Cpu) : SrcSt := { mem := s.mem, x := s.x, y := s.y, sp := s.sp }
 
 @[simp] theorem srcOf_mem (s : Cpu) : (srcOf s).mem = s.mem := rfl
 @[simp] theorem srcOf_x (s : Cpu) : (srcOf s).x = s.x := rfl
 @[simp] theorem srcOf_y (s : Cpu) : (srcOf s).y = s.y := rfl
+@[simp] theorem srcOf_sp (s : Cpu) : (srcOf s).sp = s.sp := rfl
 
 /-- what the generator's flag belief claims about a machine state -/
 def FlagsInv (L : Layout) (fl : Option FRef) (s : Cpu) : Prop :=
@@ -331,7 +332,7 @@ theorem asgWCode_exec (L : Layout) (s : Cpu) (v : String) (a : WA) :
     rw [this, execSeq_append', e1]
     simpa using e2
   · simp only [srcOf, asgWSpec, wr, rval, elAddr]
-    rw [m2, x2, y2, m1, x1, y1]
+    rw [m2, x2, y2, p2, m1, x1, y1, p1]
     rfl
 
 theorem binWCode_exec (L : Layout) (s : Cpu) (v : String) (op : BOp) (x y : WA) :
@@ -378,7 +379,7 @@ theorem binWCode_exec (L : Layout) (s : Cpu) (v : String) (op : BOp) (x y : WA) 
           · funext a b; rfl
           · funext a b; rfl
       simp only [srcOf, binWSpec, wr, rval, elAddr]
-      rw [m2, x2, y2, hh, m1, x1, y1]
+      rw [m2, x2, y2, p2, hh, m1, x1, y1, p1]
       rfl
 
 /-! ### chains (stage 7) -/
@@ -414,8 +415,8 @@ theorem chainStmt_exec (L : Layout) (s : Cpu) (v : LV) (a : RA) (op1 : BOp) (b1 
 /-- `STA cctmp ; <load x> ; SEC ; SBC cctmp`: x − (the value that was in A) -/
 theorem subFrom_exec (L : Layout) (s : Cpu) (x : RA) :
     ∃ s2, execSeq s ([(Mn.STA, opd L tmp)] ++ loadA Opd.none (opd L) x ++ [(Mn.SEC, Opd.none), (Mn.SBC, opd L tmp)]) = some s2 ∧
-      s2.a = rval L { mem := s.mem.write (L "cctmp") s.a, x := s.x, y := s.y } x - s.a ∧
-      srcOf s2 = { mem := s.mem.write (L "cctmp") s.a, x := s.x, y := s.y } ∧ s2.sp = s.sp ∧ s2.f.z = (s2.a == 0) := by
+      s2.a = rval L { srcOf s with mem := s.mem.write (L "cctmp") s.a } x - s.a ∧
+      srcOf s2 = { srcOf s with mem := s.mem.write (L "cctmp") s.a } ∧ s2.sp = s.sp ∧ s2.f.z = (s2.a == 0) := by
   obtain ⟨s1, e1, a1, m1, p1, _⟩ := loadA_exec L { s with mem := s.mem.write (L "cctmp") s.a } x
   have hm : s1.mem = s.mem.write (L "cctmp") s.a := congrArg SrcSt.mem m1
   have hx : s1.x = s.x := congrArg SrcSt.x m1
@@ -430,7 +431,7 @@ theorem subFrom_exec (L : Layout) (s : Cpu) (x : RA) :
     simp [execSeq, Cpu.exec, hrd]
   · rw [sbc_after_sec _ _ (by simp)]
     simp only [a1, srcOf]
-  · simp [srcOf, hm, hx, hy]
+  · simp [srcOf, hm, hx, hy, p1]
   · simp [p1]
   · simp [Cpu.sbc, Cpu.adc]
 
@@ -463,8 +464,8 @@ theorem linCode_exec (L : Layout) (e : LExpr) (s : Cpu) :
       refine ⟨s2, ?_, ?_, ?_, by rw [p2, p1], z2⟩
       · simp only [linCode, execSeq_append', e1, Option.bind_some]
         simpa using e2
-      · rw [a2, a1, hm, hx, hy]; simp [linVal]
-      · rw [m2, a1, hm, hx, hy]; simp [linVal]
+      · rw [a2, a1, hm, m1]; simp [linVal]
+      · rw [m2, a1, hm, m1]; simp [linVal]
     · obtain ⟨s2, e2, a2, m2, p2, z2⟩ := opCode_exec L s1 op x
       have hne : (op == BOp.sub) = false := by cases op <;> simp_all
       refine ⟨s2, ?_, ?_, ?_, by rw [p2, p1], z2 z1⟩
@@ -482,6 +483,491 @@ theorem linStmt_exec (L : Layout) (s : Cpu) (v : LV) (e : LExpr) :
   · simp only [execSeq_append', e2, Option.bind_some, e3]
   · rw [m3, m2, a2]
 
+/-! ### expression trees (stage 10) -/
+
+/-- Z describes the accumulator -/
+def ZA (s : Cpu) : Prop := s.f.z = (s.a == 0)
+
+theorem staTmp_exec (L : Layout) (s : Cpu) :
+    execSeq s [(Mn.STA, opd L tmp)] = some { s with mem := s.mem.write (L "cctmp") s.a } := by
+  simp [execSeq, Cpu.exec, tmp, opd, Cpu.ea]
+
+theorem pha_exec (s : Cpu) : execSeq s [(Mn.PHA, Opd.none)] = some (s.push s.a) := by
+  simp [execSeq, Cpu.exec]
+
+theorem srcOf_push (s : Cpu) (v : Byte) : srcOf (s.push v) = pushS (srcOf s) v := by
+  simp [srcOf, Cpu.push, pushS]
+
+theorem pla_exec (s : Cpu) :
+    ∃ s', execSeq s [(Mn.PLA, Opd.none)] = some s' ∧ srcOf s' = (pullS (srcOf s)).1 ∧ s'.a = (pullS (srcOf s)).2 ∧ ZA s' := by
+  refine ⟨{ s.pull.2 with a := s.pull.1, f := Cpu.setNZ s.pull.2.f s.pull.1 }, by simp [execSeq, Cpu.exec], ?_, ?_, ?_⟩ <;>
+    simp [srcOf, Cpu.pull, pullS, ZA]
+
+theorem ldaTmp_exec (L : Layout) (s : Cpu) :
+    ∃ s', execSeq s [(Mn.LDA, opd L tmp)] = some s' ∧ srcOf s' = srcOf s ∧ s'.a = s.mem.read (L "cctmp") ∧ ZA s' := by
+  refine ⟨{ s with a := s.mem.read (L "cctmp"), f := Cpu.setNZ s.f (s.mem.read (L "cctmp")) },
+    by simp [execSeq, Cpu.exec, tmp, opd, Cpu.rd, Cpu.ea], ?_, ?_, ?_⟩ <;> simp [srcOf, ZA]
+
+/-- a plan never saves the accumulator when the left operand is in it -/
+theorem Plan.acc_nosave (p : Plan) (h : p.left = .acc) : p.save = false := by
+  simp [Plan.save, h]
+
+/-- the code of a plan runs to what `evalPlan` says; Z describes the accumulator afterwards -/
+theorem planCode_exec (L : Layout) (op : BOp) (p : Plan) (s : Cpu) (hz : p.left = .acc → ZA s) :
+    ∃ s', execSeq s (planCode Opd.none (opd L) op p) = some s' ∧ srcOf s' = (evalPlan L (srcOf s) s.a op p).1 ∧
+      s'.a = (evalPlan L (srcOf s) s.a op p).2 ∧ ZA s' := by
+  -- phase 0: the right operand out of the accumulator
+  have h0 : ∃ s0, execSeq s (if p.spill then [(Mn.STA, opd L tmp)] else []) = some s0 ∧
+      srcOf s0 = (if p.spill then setTmp L (srcOf s) s.a else srcOf s) ∧ s0.a = s.a ∧ s0.f = s.f := by
+    by_cases hs : p.spill = true
+    · refine ⟨{ s with mem := s.mem.write (L "cctmp") s.a }, ?_, ?_, rfl, rfl⟩
+      · rw [if_pos hs]; exact staTmp_exec L s
+      · rw [if_pos hs]; rfl
+    · have hs' : p.spill = false := by simpa using hs
+      exact ⟨s, by simp [hs', execSeq], by simp [hs'], rfl, rfl⟩
+  obtain ⟨s0, e0, m0, a0, f0⟩ := h0
+  -- phase 1a: save the accumulator
+  have h1 : ∃ s1, execSeq s0 (if p.save then [(Mn.PHA, Opd.none)] else []) = some s1 ∧
+      srcOf s1 = (if p.save then pushS (srcOf s0) s0.a else srcOf s0) ∧ s1.a = s0.a ∧ s1.f = s0.f := by
+    by_cases hs : p.save = true
+    · refine ⟨s0.push s0.a, ?_, ?_, by simp [Cpu.push], by simp [Cpu.push]⟩
+      · rw [if_pos hs]; exact pha_exec s0
+      · rw [if_pos hs]; exact srcOf_push s0 s0.a
+    · have hs' : p.save = false := by simpa using hs
+      exact ⟨s0, by simp [hs', execSeq], by simp [hs'], rfl, rfl⟩
+  obtain ⟨s1, e1, m1, a1, f1⟩ := h1
+  -- phase 1b: the left operand into the accumulator
+  have h2 : ∃ s2, execSeq s1 (loadLeft Opd.none (opd L) p.left) = some s2 ∧ srcOf s2 = srcOf s1 ∧
+      s2.a = leftVal L (srcOf s1) s.a p.left ∧ ZA s2 := by
+    cases hl : p.left with
+    | atm x =>
+      obtain ⟨s2, e2, a2, m2, _, z2⟩ := loadA_exec L s1 x
+      exact ⟨s2, e2, m2, a2, z2⟩
+    | tmp =>
+      obtain ⟨s2, e2, m2, a2, z2⟩ := ldaTmp_exec L s1
+      exact ⟨s2, e2, m2, by simpa [leftVal] using a2, z2⟩
+    | acc =>
+      refine ⟨s1, by simp [loadLeft, execSeq], rfl, by simp [leftVal, a1, a0], ?_⟩
+      have := hz hl
+      unfold ZA at this ⊢
+      rw [f1, f0, a1, a0]; exact this
+  obtain ⟨s2, e2, m2, a2, z2⟩ := h2
+  -- phase 2: the operation
+  obtain ⟨s3, e3, a3, m3, _, z3⟩ := opCode_exec L s2 op (opnd p.right2)
+  have z3' : ZA s3 := z3 z2
+  have hσ1 : srcOf s1 = (if p.save then pushS (if p.spill then setTmp L (srcOf s) s.a else srcOf s) s.a
+      else (if p.spill then setTmp L (srcOf s) s.a else srcOf s)) := by rw [m1, m0, a0]
+  have hval : s2.a = leftVal L (srcOf s1) s.a p.left := a2
+  -- phase 3: hand the result over
+  by_cases hvt : p.save = true
+  · obtain ⟨s5, e5, m5, a5, z5⟩ := pla_exec ({ s3 with mem := s3.mem.write (L "cctmp") s3.a } : Cpu)
+    have hpre : srcOf ({ s3 with mem := s3.mem.write (L "cctmp") s3.a } : Cpu) =
+        setTmp L (tmpWrite L (srcOf s1) op (opnd p.right2)) (op.apply s2.a (rval L (srcOf s1) (opnd p.right2))) := by
+      have : srcOf ({ s3 with mem := s3.mem.write (L "cctmp") s3.a } : Cpu) = setTmp L (srcOf s3) s3.a := rfl
+      rw [this, m3, a3, m2]
+    refine ⟨s5, ?_, ?_, ?_, z5⟩
+    · simp only [planCode, execSeq_append', e0, Option.bind_some, e1, e2, e3]
+      rw [if_pos hvt, show [(Mn.STA, opd L tmp), (Mn.PLA, Opd.none)] = [(Mn.STA, opd L tmp)] ++ [(Mn.PLA, Opd.none)] from rfl,
+        execSeq_append', staTmp_exec]
+      simpa using e5
+    · rw [m5, hpre, hval, hσ1]
+      simp only [evalPlan, hvt, if_true]
+    · rw [a5, hpre, hval, hσ1]
+      simp only [evalPlan, hvt, if_true]
+  · have hvt' : p.save = false := by simpa using hvt
+    refine ⟨s3, ?_, ?_, ?_, z3'⟩
+    · simp only [planCode, execSeq_append', e0, Option.bind_some, e1, e2, e3]
+      simp [hvt', execSeq]
+    · rw [m3, m2, hσ1]
+      simp only [evalPlan, hvt', Bool.false_eq_true, if_false]
+    · rw [a3, hval, m2, hσ1]
+      simp only [evalPlan, hvt', Bool.false_eq_true, if_false]
+
+theorem order_left_acc (op : BOp) (l r : ET) (h : (order op l r).1 = .acc) : l = .acc ∨ r = .acc := by
+  unfold order at h
+  split at h
+  · exact Or.inl h
+  · split at h
+    · exact Or.inr h
+    · split at h
+      · exact Or.inr h
+      · exact Or.inl h
+
+theorem plan_left {st : ES} {l : ET} {op : BOp} {rt : ET} {p : Plan} (h : plan st l op rt = some p) :
+    p.left = (order op l rt).1 ∧ p.st'.acc = true := by
+  unfold plan at h
+  split at h
+  · cases h; exact ⟨rfl, rfl⟩
+  · cases h
+
+/-- `acc_in_use` is never cleared inside an expression, and a result in the accumulator means it is set -/
+theorem genE_acc {α : Type} (none : α) (r : Atom → α) : ∀ (e : GExpr) (st : ES) (c : List (Mn × α)) (t : ET) (st' : ES),
+    genE none r st e = some (c, t, st') → (st.acc = true → st'.acc = true) ∧ (t = .acc → st'.acc = true) := by
+  intro e
+  induction e with
+  | atom a =>
+    intro st c t st' h
+    simp only [genE, Option.some.injEq, Prod.mk.injEq] at h
+    obtain ⟨_, ht, hs⟩ := h
+    subst hs; subst ht
+    exact ⟨id, fun h => by cases h⟩
+  | bin l op rr ihl ihr =>
+    intro st c t st' h
+    simp only [genE] at h
+    cases hl : genE none r st l with
+    | none => simp [hl] at h
+    | some x =>
+      obtain ⟨cl, tl, s1⟩ := x
+      simp only [hl] at h
+      cases hr : genE none r s1 rr with
+      | none => simp [hr] at h
+      | some y =>
+        obtain ⟨cr, tr, s2⟩ := y
+        simp only [hr] at h
+        cases ha : arithm none r s2 tl op tr with
+        | none => simp [ha] at h
+        | some z =>
+          obtain ⟨ca, t3, s3⟩ := z
+          simp only [ha, Option.some.injEq, Prod.mk.injEq] at h
+          obtain ⟨_, ht, hs⟩ := h
+          subst ht; subst hs
+          simp only [arithm, Option.map_eq_some_iff] at ha
+          obtain ⟨p, hp, hpe⟩ := ha
+          simp only [Prod.mk.injEq] at hpe
+          obtain ⟨_, _, hst⟩ := hpe
+          have := (plan_left hp).2
+          rw [hst] at this
+          exact ⟨fun _ => this, fun _ => this⟩
+
+/-- the code of every accepted expression runs to `evalE` -/
+theorem genE_exec (L : Layout) : ∀ (e : GExpr) (st : ES) (c : List (Mn × Opd)) (t : ET) (st' : ES),
+    genE Opd.none (opd L) st e = some (c, t, st') → ∀ s : Cpu, (st.acc = true → ZA s) →
+    ∃ s' q, evalE L (srcOf s) s.a st e = some (q, t, st') ∧ execSeq s c = some s' ∧ srcOf s' = q.1 ∧ s'.a = q.2 ∧
+      (st'.acc = true → ZA s') := by
+  intro e
+  induction e with
+  | atom a =>
+    intro st c t st' h s hz
+    simp only [genE, Option.some.injEq, Prod.mk.injEq] at h
+    obtain ⟨hc, ht, hs⟩ := h
+    subst hc; subst ht; subst hs
+    exact ⟨s, (srcOf s, s.a), by simp [evalE], by simp [execSeq], rfl, rfl, hz⟩
+  | bin l op rr ihl ihr =>
+    intro st c t st' h s hz
+    simp only [genE] at h
+    cases hl : genE Opd.none (opd L) st l with
+    | none => simp [hl] at h
+    | some x =>
+      obtain ⟨cl, tl, s1⟩ := x
+      simp only [hl] at h
+      cases hr : genE Opd.none (opd L) s1 rr with
+      | none => simp [hr] at h
+      | some y =>
+        obtain ⟨cr, tr, s2⟩ := y
+        simp only [hr] at h
+        cases ha : arithm Opd.none (opd L) s2 tl op tr with
+        | none => simp [ha] at h
+        | some z =>
+          obtain ⟨ca, t3, s3⟩ := z
+          simp only [ha, Option.some.injEq, Prod.mk.injEq] at h
+          obtain ⟨hc, ht, hs⟩ := h
+          subst hc; subst ht; subst hs
+          obtain ⟨m1, q1, ev1, ex1, hm1, ha1, hz1⟩ := ihl st cl tl s1 hl s hz
+          obtain ⟨m2, q2, ev2, ex2, hm2, ha2, hz2⟩ := ihr s1 cr tr s2 hr m1 hz1
+          simp only [arithm, Option.map_eq_some_iff] at ha
+          obtain ⟨p, hp, hpe⟩ := ha
+          simp only [Prod.mk.injEq] at hpe
+          obtain ⟨hca, ht3, hs3⟩ := hpe
+          have hacc1 := genE_acc Opd.none (opd L) l st cl tl s1 hl
+          have hacc2 := genE_acc Opd.none (opd L) rr s1 cr tr s2 hr
+          have hzp : p.left = .acc → ZA m2 := by
+            intro hle
+            rw [(plan_left hp).1] at hle
+            rcases order_left_acc op tl tr hle with h1 | h2
+            · exact hz2 (hacc2.1 (hacc1.2 h1))
+            · exact hz2 (hacc2.2 h2)
+          obtain ⟨m3, ex3, hm3, ha3, hz3⟩ := planCode_exec L op p m2 hzp
+          refine ⟨m3, evalPlan L q2.1 q2.2 op p, ?_, ?_, ?_, ?_, fun _ => hz3⟩
+          · simp only [evalE]
+            rw [hm1, ha1] at ev2
+            obtain ⟨σ1, a1⟩ := q1
+            simp only [ev1]
+            obtain ⟨σ2, a2⟩ := q2
+            simp only [ev2, evalArithm, hp, Option.map_some, ht3, hs3]
+          · rw [← hca, execSeq_append', execSeq_append', ex1]
+            simp only [Option.bind_some, ex2, ex3]
+          · rw [hm3, hm2, ha2]
+          · rw [ha3, hm2, ha2]
+
+
+/-- what the generator decides (where the result is, its state, whether it gives up) does not depend on how
+    operands are rendered -/
+theorem genE_kind {α β : Type} (n : α) (r : Atom → α) (n' : β) (r' : Atom → β) : ∀ (e : GExpr) (st : ES),
+    (genE n r st e).map (fun x => x.2) = (genE n' r' st e).map (fun x => x.2) := by
+  intro e
+  induction e with
+  | atom a => intro st; simp [genE]
+  | bin l op rr ihl ihr =>
+    intro st
+    have h1 := ihl st
+    simp only [genE]
+    cases hl : genE n r st l with
+    | none =>
+      cases hl' : genE n' r' st l with
+      | none => simp
+      | some y => simp [hl, hl'] at h1
+    | some x =>
+      cases hl' : genE n' r' st l with
+      | none => simp [hl, hl'] at h1
+      | some y =>
+        obtain ⟨cl, tl, s1⟩ := x
+        obtain ⟨cl', tl', s1'⟩ := y
+        simp only [hl, hl', Option.map_some, Option.some.injEq, Prod.mk.injEq] at h1
+        obtain ⟨ht, hs⟩ := h1
+        subst ht; subst hs
+        have h2 := ihr s1
+        simp only
+        cases hr : genE n r s1 rr with
+        | none =>
+          cases hr' : genE n' r' s1 rr with
+          | none => simp
+          | some y => simp [hr, hr'] at h2
+        | some x =>
+          cases hr' : genE n' r' s1 rr with
+          | none => simp [hr, hr'] at h2
+          | some y =>
+            obtain ⟨cr, tr, s2⟩ := x
+            obtain ⟨cr', tr', s2'⟩ := y
+            simp only [hr, hr', Option.map_some, Option.some.injEq, Prod.mk.injEq] at h2
+            obtain ⟨ht, hs⟩ := h2
+            subst ht; subst hs
+            simp only [arithm]
+            cases plan s2 tl op tr <;> simp
+
+theorem genE_ok_iff {α : Type} (n : α) (r : Atom → α) (e : GExpr) (hne : ∀ a, e ≠ .atom a) :
+    e.ok = true ↔ ∃ c st', genE n r {} e = some (c, .acc, st') := by
+  have h := genE_kind () (fun _ => ()) n r e {}
+  cases e with
+  | atom a => exact absurd rfl (hne a)
+  | bin l op rr =>
+    simp only [GExpr.ok]
+    cases h1 : genE () (fun _ => ()) {} (.bin l op rr) with
+    | none =>
+      cases h2 : genE n r {} (.bin l op rr) with
+      | none => simp
+      | some y => simp [h1, h2] at h
+    | some x =>
+      cases h2 : genE n r {} (.bin l op rr) with
+      | none => simp [h1, h2] at h
+      | some y =>
+        obtain ⟨c, t, st'⟩ := x
+        obtain ⟨c', t', st''⟩ := y
+        simp only [h1, h2, Option.map_some, Option.some.injEq, Prod.mk.injEq] at h
+        obtain ⟨ht, hs⟩ := h
+        subst ht; subst hs
+        cases t <;> simp
+
+/-- an operand in the accumulator means `acc_in_use` -/
+theorem evalE_acc (L : Layout) : ∀ (e : GExpr) (σ : SrcSt) (a : Byte) (st : ES) (q : SrcSt × Byte) (t : ET) (st' : ES),
+    evalE L σ a st e = some (q, t, st') → (st.acc = true → st'.acc = true) ∧ (t = .acc → st'.acc = true) := by
+  intro e
+  induction e with
+  | atom x =>
+    intro σ a st q t st' h
+    simp only [evalE, Option.some.injEq, Prod.mk.injEq] at h
+    obtain ⟨_, ht, hs⟩ := h
+    subst hs; subst ht
+    exact ⟨id, fun h => by cases h⟩
+  | bin l op rr ihl ihr =>
+    intro σ a st q t st' h
+    simp only [evalE] at h
+    cases hl : evalE L σ a st l with
+    | none => simp [hl] at h
+    | some x =>
+      obtain ⟨⟨σ1, a1⟩, tl, s1⟩ := x
+      simp only [hl] at h
+      cases hr : evalE L σ1 a1 s1 rr with
+      | none => simp [hr] at h
+      | some y =>
+        obtain ⟨⟨σ2, a2⟩, tr, s2⟩ := y
+        simp only [hr, evalArithm, Option.map_eq_some_iff] at h
+        obtain ⟨p, hp, hpe⟩ := h
+        simp only [Prod.mk.injEq] at hpe
+        obtain ⟨_, _, hst⟩ := hpe
+        have := (plan_left hp).2
+        rw [hst] at this
+        exact ⟨fun _ => this, fun _ => this⟩
+
+/-- a plan uses the accumulator's content only when `acc_in_use` says there is one -/
+theorem evalPlan_acc_irrelevant (L : Layout) (σ : SrcSt) (a a' : Byte) (op : BOp) (st : ES) (l rt : ET) (p : Plan)
+    (hp : plan st l op rt = some p) (hlr : (l = .acc ∨ rt = .acc) → st.acc = true) (h : st.acc = true → a = a') :
+    evalPlan L σ a op p = evalPlan L σ a' op p := by
+  by_cases hacc : st.acc = true
+  · rw [h hacc]
+  · have hacc' : st.acc = false := by simpa using hacc
+    have hno : l ≠ .acc ∧ rt ≠ .acc := by
+      constructor <;> intro e <;> exact hacc (hlr (by simp [e]))
+    unfold plan at hp
+    split at hp
+    · cases hp
+      have ho : (order op l rt).1 ≠ .acc ∧ (order op l rt).2 ≠ .acc := by
+        unfold order
+        split
+        · exact hno
+        · split
+          · exact ⟨hno.2, hno.1⟩
+          · split
+            · exact absurd rfl hno.2
+            · exact hno
+      have hs : ((order op l rt).2 == ET.acc) = false := by
+        cases h2 : (order op l rt).2 <;> simp_all
+      have hl1 : leftVal L σ a (order op l rt).1 = leftVal L σ a' (order op l rt).1 := by
+        cases h1 : (order op l rt).1 <;> simp_all [leftVal]
+      simp only [evalPlan, mkPlan, hs, Plan.save, hacc', Bool.false_and, Bool.false_eq_true, if_false, hl1]
+    · cases hp
+
+theorem evalE_acc_irrelevant (L : Layout) : ∀ (e : GExpr) (σ : SrcSt) (a a' : Byte) (st : ES), (st.acc = true → a = a') →
+    match evalE L σ a st e, evalE L σ a' st e with
+    | some ((σ1, a1), t, st1), some ((σ2, a2), t2, st2) => σ1 = σ2 ∧ t = t2 ∧ st1 = st2 ∧ (st1.acc = true → a1 = a2)
+    | none, none => True
+    | _, _ => False := by
+  intro e
+  induction e with
+  | atom x => intro σ a a' st h; simpa [evalE] using h
+  | bin l op rr ihl ihr =>
+    intro σ a a' st h
+    have h1 := ihl σ a a' st h
+    simp only [evalE]
+    cases hl : evalE L σ a st l with
+    | none =>
+      cases hl' : evalE L σ a' st l with
+      | none => simp
+      | some y => simp [hl, hl'] at h1
+    | some x =>
+      cases hl' : evalE L σ a' st l with
+      | none => simp [hl, hl'] at h1
+      | some y =>
+        obtain ⟨⟨σ1, a1⟩, tl, s1⟩ := x
+        obtain ⟨⟨σ1', a1'⟩, tl', s1'⟩ := y
+        simp only [hl, hl'] at h1
+        obtain ⟨hσ, ht, hs, ha⟩ := h1
+        subst hσ; subst ht; subst hs
+        have h2 := ihr σ1 a1 a1' s1 ha
+        simp only
+        cases hr : evalE L σ1 a1 s1 rr with
+        | none =>
+          cases hr' : evalE L σ1 a1' s1 rr with
+          | none => simp
+          | some y => simp [hr, hr'] at h2
+        | some x =>
+          cases hr' : evalE L σ1 a1' s1 rr with
+          | none => simp [hr, hr'] at h2
+          | some y =>
+            obtain ⟨⟨σ2, a2⟩, tr, s2⟩ := x
+            obtain ⟨⟨σ2', a2'⟩, tr', s2'⟩ := y
+            simp only [hr, hr'] at h2
+            obtain ⟨hσ, ht, hs, ha2⟩ := h2
+            subst hσ; subst ht; subst hs
+            simp only [evalArithm]
+            cases hp : plan s2 tl op tr with
+            | none => simp
+            | some p =>
+              have e1 := evalE_acc L l σ a st _ _ _ hl
+              have e2 := evalE_acc L rr σ1 a1 s1 _ _ _ hr
+              have hlr : (tl = .acc ∨ tr = .acc) → s2.acc = true := by
+                rintro (h | h)
+                · exact e2.1 (e1.2 h)
+                · exact e2.2 h
+              have := evalPlan_acc_irrelevant L σ2 a2 a2' op s2 tl tr p hp hlr ha2
+              simp only [Option.map_some]
+              rw [this]
+              simp
+
+theorem evalPlan_sp (L : Layout) (σ : SrcSt) (a : Byte) (op : BOp) (p : Plan) : (evalPlan L σ a op p).1.sp = σ.sp := by
+  have ht : ∀ τ : SrcSt, ∀ y, (tmpWrite L τ op y).sp = τ.sp := by
+    intro τ y; unfold tmpWrite; split <;> rfl
+  unfold evalPlan
+  by_cases hs : p.save = true
+  · simp only [hs, if_true, pullS, ht, setTmp, pushS]
+    split
+    · show σ.sp - 1 + 1 = σ.sp
+      bv_omega
+    · show σ.sp - 1 + 1 = σ.sp
+      bv_omega
+  · simp only [hs, if_false, Bool.false_eq_true, ht]
+    split <;> rfl
+
+theorem evalE_sp (L : Layout) : ∀ (e : GExpr) (σ : SrcSt) (a : Byte) (st : ES) (q : SrcSt × Byte) (t : ET) (st' : ES),
+    evalE L σ a st e = some (q, t, st') → q.1.sp = σ.sp := by
+  intro e
+  induction e with
+  | atom x =>
+    intro σ a st q t st' h
+    simp only [evalE, Option.some.injEq, Prod.mk.injEq] at h
+    rw [← h.1]
+  | bin l op rr ihl ihr =>
+    intro σ a st q t st' h
+    simp only [evalE] at h
+    cases hl : evalE L σ a st l with
+    | none => simp [hl] at h
+    | some x =>
+      obtain ⟨⟨σ1, a1⟩, tl, s1⟩ := x
+      simp only [hl] at h
+      cases hr : evalE L σ1 a1 s1 rr with
+      | none => simp [hr] at h
+      | some y =>
+        obtain ⟨⟨σ2, a2⟩, tr, s2⟩ := y
+        simp only [hr, evalArithm, Option.map_eq_some_iff] at h
+        obtain ⟨p, hp, hpe⟩ := h
+        simp only [Prod.mk.injEq] at hpe
+        rw [← hpe.1, evalPlan_sp]
+        have h1 := ihl σ a st _ _ _ hl
+        have h2 := ihr σ1 a1 s1 _ _ _ hr
+        exact h2.trans h1
+
+/-- `v = e` for an expression tree -/
+theorem exprStmt_exec (L : Layout) (s : Cpu) (fl : Option FRef) (v : LV) (e : GExpr) (hinv : FlagsInv L fl s) :
+    ∃ s', execSeq s (exprCode Opd.none (opd L) v e) = some s' ∧ srcOf s' = exprSpec L (srcOf s) v e ∧ s'.sp = s.sp ∧
+      FlagsInv L (if e.ok then some v else fl) s' := by
+  cases e with
+  | atom a =>
+    refine ⟨s, by simp [exprCode, genE, execSeq], by simp [exprSpec, GExpr.ok], rfl, by simpa [GExpr.ok] using hinv⟩
+  | bin l op rr =>
+    by_cases hok : (GExpr.bin l op rr).ok = true
+    · obtain ⟨c, st', hg⟩ := (genE_ok_iff Opd.none (opd L) (.bin l op rr) (by intro a h; cases h)).1 hok
+      obtain ⟨s1, q, ev, ex, hm, ha, hz⟩ := genE_exec L (.bin l op rr) {} c .acc st' hg s (by intro h; cases h)
+      have hacc : st'.acc = true := (genE_acc Opd.none (opd L) _ _ _ _ _ hg).2 rfl
+      obtain ⟨s3, e3, m3, p3, z3⟩ := storeA_exec L s1 v
+      have hirr := evalE_acc_irrelevant L (.bin l op rr) (srcOf s) s.a 0 {} (by intro h; cases h)
+      rw [ev] at hirr
+      cases h0 : evalE L (srcOf s) 0 {} (.bin l op rr) with
+      | none => rw [h0] at hirr; exact hirr.elim
+      | some y =>
+        obtain ⟨⟨σ2, a2⟩, t2, st2⟩ := y
+        obtain ⟨σq, aq⟩ := q
+        rw [h0] at hirr
+        simp only at hirr
+        obtain ⟨hσ, ht, hs, haa⟩ := hirr
+        have hsp : s1.sp = s.sp := by
+          have h1 := congrArg SrcSt.sp hm
+          have h2 := evalE_sp L _ _ _ _ _ _ _ ev
+          exact h1.trans h2
+        refine ⟨s3, ?_, ?_, by rw [p3, hsp], by simpa [hok] using z3 (hz hacc)⟩
+        · simp only [exprCode, hg, execSeq_append', ex, Option.bind_some, e3]
+        · rw [m3, hm, ha]
+          simp only [exprSpec, hok, if_true, h0]
+          rw [← hσ, ← haa hacc]
+    · have hok' : (GExpr.bin l op rr).ok = false := by simpa using hok
+      have hng : ∀ c st', genE Opd.none (opd L) {} (.bin l op rr) ≠ some (c, .acc, st') := by
+        intro c st' h
+        exact hok ((genE_ok_iff Opd.none (opd L) (.bin l op rr) (by intro a h; cases h)).2 ⟨c, st', h⟩)
+      have hcode : exprCode Opd.none (opd L) v (.bin l op rr) = [] := by
+        unfold exprCode
+        split
+        · rename_i c st' h; exact absurd h (hng c st')
+        · rfl
+      exact ⟨s, by simp [hcode, execSeq], by simp [exprSpec, hok'], rfl, by simpa [hok'] using hinv⟩
+
 /-- every statement, every layout, every machine state: the code ends, memory / X / Y are what the source
     prescribes, SP is untouched, and the generator's belief about the flags is true afterwards -/
 theorem rflat_correct (L : Layout) (zp : String → Bool) (st : RStmt) (fl : Option FRef) (s : Cpu) (hinv : FlagsInv L fl s) :
@@ -493,6 +979,9 @@ theorem rflat_correct (L : Layout) (zp : String → Bool) (st : RStmt) (fl : Opt
   | opasg v op a => simpa [rgenOps, rtemplate, rspec, flagsAfter] using binCode_exec L zp s fl v op v.ra a hinv
   | inc v => simpa [rgenOps, rtemplate, rspec, flagsAfter] using incCode_exec L s true v
   | dec v => simpa [rgenOps, rtemplate, rspec, flagsAfter] using incCode_exec L s false v
+  | expr v e =>
+    obtain ⟨s', h1, h2, h3, h4⟩ := exprStmt_exec L s fl v e hinv
+    exact ⟨s', by simpa [rgenOps, rtemplate] using h1, by simpa [rspec] using h2, h3, by simpa [flagsAfter] using h4⟩
   | lin v e =>
     obtain ⟨s', h1, h2, h3, h4⟩ := linStmt_exec L s v e
     exact ⟨s', by simpa [rgenOps, rtemplate] using h1, by simpa [rspec] using h2, h3, by simpa [flagsAfter] using h4⟩
